@@ -1986,6 +1986,7 @@ def run_compress(case):
     info["via"] = via
     info["L1"] = bool(L == 1)
     info["in_exp"] = bool(in_exp)
+    info["inplace"] = bool(case["inplace"])
 
     def call():
         if via == "dispatcher":
@@ -2043,6 +2044,8 @@ def run_compress(case):
     exact_expected = cutoff == 0.0 and (cap is None or cap >= need_m)
     if exact_expected and method in ("zipup-first", "zipup-oversample") and over_eff is not None and over_eff < struct:
         exact_expected = False
+    if L == 1 and cutoff != 1e-3:
+        exact_expected = True  # a single site has no bond: nothing can need truncating
     if method in M_DET:
         tol = 1e-8
     else:
